@@ -77,6 +77,7 @@ type Ctx struct {
 	notes     []string
 	exhaust   bool
 	closeOnce sync.Once
+	curF      *os.File
 }
 
 func NewCtx(stream, property, tier string, seed uint64, outDir string) *Ctx {
@@ -99,6 +100,23 @@ func NewCtx(stream, property, tier string, seed uint64, outDir string) *Ctx {
 }
 
 func (c *Ctx) Thorough() bool { return c.Tier == "thorough" }
+
+// Begin records the operation about to run, so that a crash of the whole process (a panic on a
+// goroutine of the library cannot be recovered from here) still names its input.
+func (c *Ctx) Begin(op string) {
+	if !guardOps {
+		return
+	}
+	c.mu.Lock()
+	if c.curF == nil {
+		c.curF, _ = os.Create(filepath.Join(c.outDir, "current_op.txt"))
+	}
+	if c.curF != nil {
+		_ = c.curF.Truncate(0)
+		_, _ = c.curF.WriteAt([]byte(op), 0)
+	}
+	c.mu.Unlock()
+}
 
 // Emit records one model-comparable operation: the op line (sent to the Lean driver) and the
 // implementation's canonical answer. nontrivial marks cases that count for distinct_nontrivial.
@@ -175,6 +193,10 @@ func (c *Ctx) closeImpl() {
 	c.impl.Flush()
 	c.opsF.Close()
 	c.implF.Close()
+	if c.curF != nil {
+		c.curF.Close()
+		_ = os.Remove(filepath.Join(c.outDir, "current_op.txt"))
+	}
 	keys := make([]string, 0, len(c.dist))
 	for k := range c.dist {
 		keys = append(keys, k)
